@@ -71,7 +71,7 @@ openssl ecparam -name secp384r1 -genkey -noout -out inter.key
 openssl req -new -key inter.key -subj "/CN=Verif Intermediate" -out inter.csr 2>/dev/null
 openssl x509 -req -in inter.csr -CA ca.crt -CAkey ca.key -CAcreateserial -days 3650 -out inter.crt -extfile v.cnf -extensions caext 2>/dev/null
 openssl ecparam -name prime256v1 -genkey -noout -out ec.key
-openssl req -new -key ec.key -subj "/CN=ec leaf/OU=\xc3\xa9t\xc3\xa9" -utf8 -out ec.csr 2>/dev/null
+openssl req -new -key ec.key -subj "/CN=ec leaf/OU=unit one" -out ec.csr 2>/dev/null
 openssl x509 -req -in ec.csr -CA inter.crt -CAkey inter.key -CAcreateserial -days 365 -out ec.crt 2>/dev/null
 openssl ecparam -name prime256v1 -genkey -noout -out tsa.key
 openssl req -new -key tsa.key -subj "/CN=verif tsa" -out tsa.csr 2>/dev/null
